@@ -61,11 +61,11 @@ def rand_num(rng):
     return ('N', -v if rng.random() < 0.3 else v)
 
 
-def build(lit):
+def build(lit, allow_int=True):
     if lit[0] == 'Q':
         v = lit[2]
         # one integral value in three is handed over as a Python int (deterministically: a replay builds the same object)
-        if isinstance(v, float) and v != 0 and v.is_integer() and abs(v) < 2 ** 31 and zlib.crc32(repr(lit).encode()) % 3 == 0:
+        if allow_int and isinstance(v, float) and v != 0 and v.is_integer() and abs(v) < 2 ** 31 and zlib.crc32(repr(lit).encode()) % 3 == 0:
             v = int(v)
         return getattr(U, lit[1])(v, lit[3])
     if lit[0] == 'N':
@@ -95,8 +95,10 @@ def run_impl(case):
     if op == 'QCtor':
         return outcome(lambda: getattr(U, a[1])(a[2], a[3]))
     # operands are built outside the measured call; an invalid operand is a generator bug
-    A = build(a)
-    B = build(b) if b is not None else None
+    # an int quantity value next to an int number can give an int zero where floats give -0.0 (0 * -8): ints only on one side
+    ok_int = not any(l is not None and l[0] == 'N' and isinstance(l[1], int) for l in (a, b))
+    A = build(a, ok_int)
+    B = build(b, ok_int) if b is not None else None
     if case.get('pre'):
         try:
             A.to(case['pre'], inplace=True)
